@@ -399,7 +399,14 @@ class _SimFile(io.BytesIO):
                 data = self.getvalue()
                 self.fs.durable[self.path] = data
                 self.fs.volatile.pop(self.path, None)
-                self.fs.ctx.log("fs", "close", self.path, len(data), digest(data))
+                # the byte image of a pickled dict depends on set/dict iteration order (PYTHONHASHSEED);
+                # log an order-independent digest of the *content* instead of the raw bytes
+                try:
+                    import pickle
+                    content = digest(pickle.loads(data))
+                except Exception:
+                    content = "unreadable"
+                self.fs.ctx.log("fs", "close", self.path, len(data), content)
         super().close()
 
     def __exit__(self, *exc):
